@@ -9,6 +9,7 @@
    substitution keeps separate lists for variables and covariables). *)
 From Coq Require Import List ZArith NArith String Bool Lia.
 From SCC Require Import Base.Sexp Lang.CoreSyn Model.Backend Model.Uniquify Model.FocusCheck Proof.SubstProof.
+From SCC Require Import Model.FocusGuard.
 Import ListNotations.
 Open Scope list_scope.
 
@@ -27,9 +28,6 @@ Fixpoint gfind (G : gam) (x : cident) : option (cchi * cident) :=
   | [] => None
   | (y, ch, y') :: r => if cident_eqb y x then Some (ch, y') else gfind r x
   end.
-
-(* a mu-abstraction that is a producer binds a covariable and vice versa *)
-Definition mu_binds (c : cchi) : cchi := match c with CPrd => CCns | CCns => CPrd end.
 
 Fixpoint gzip (ctx ctx' : cctx) : gam :=
   match ctx, ctx' with
@@ -68,39 +66,6 @@ with aeq_s : gam -> cstmt -> cstmt -> Prop :=
 with aeq_o : gam -> option cterm -> option cterm -> Prop :=
 | A_none : forall G, aeq_o G None None
 | A_some : forall G a a', aeq_t G a a' -> aeq_o G (Some a) (Some a').
-
-(* ---------- chirality-consistent scoping ([c] = chirality of the position, as in subst_term) ---------- *)
-Fixpoint sfind (S : list (cident * cchi)) (x : cident) : option cchi :=
-  match S with
-  | [] => None
-  | (y, ch) :: r => if cident_eqb y x then Some ch else sfind r x
-  end.
-Definition ctx_sc (ctx : cctx) : list (cident * cchi) := map (fun b => (cbvar b, cbchi b)) ctx.
-
-Fixpoint cs_term (S : list (cident * cchi)) (c : cchi) (t : cterm) : bool :=
-  match t with
-  | CXVar _ v _ => match sfind S v with Some ch => cchi_eqb ch c | None => true end
-  | CLit _ => true
-  | COp a _ b => cs_term S CPrd a && cs_term S CPrd b
-  | CMu c' v s _ => cs_stmt ((v, mu_binds c') :: S) s
-  | CXtor _ _ args _ => forallb (cs_arg S) args
-  | CXCase _ cls _ => forallb (cs_clause S) cls
-  end
-with cs_arg (S : list (cident * cchi)) (a : carg) : bool :=
-  match a with CProducer p => cs_term S CPrd p | CConsumer k => cs_term S CCns k end
-with cs_clause (S : list (cident * cchi)) (cl : cclause) : bool :=
-  match cl with CClause _ _ ctx b => cs_stmt (ctx_sc ctx ++ S) b end
-with cs_stmt (S : list (cident * cchi)) (s : cstmt) : bool :=
-  match s with
-  | CCut p _ k => cs_term S CPrd p && cs_term S CCns k
-  | CIfC _ a b t e =>
-      cs_term S CPrd a && match b with Some b' => cs_term S CPrd b' | None => true end && cs_stmt S t && cs_stmt S e
-  | CPrint _ a n => cs_term S CPrd a && cs_stmt S n
-  | CCall _ args _ => forallb (cs_arg S) args
-  | CExit a _ => cs_term S CPrd a
-  end.
-Definition cs_def (d : cdef) : bool := cs_stmt (ctx_sc (cdctx d)) (cdbody d).
-Definition cs_prog (p : cprog) : bool := forallb cs_def (cpdefs p).
 
 Definition gsrc (G : gam) : list (cident * cchi) := map (fun e => (fst (fst e), snd (fst e))) G.
 
